@@ -35,6 +35,8 @@ from .stubs import patched
 
 VERIF = os.path.dirname(os.path.dirname(os.path.abspath(__file__)))
 REPO = os.environ.get("VERIF_REPO", "/repo")
+# evidence goes to /verif/evidence; seeded-change trials redirect it so committed evidence is never overwritten
+EVDIR = os.environ.get("VERIF_EVIDENCE_DIR") or os.path.join(VERIF, "evidence")
 
 EXIT_OK, EXIT_VIOLATION, EXIT_INCONCLUSIVE = 0, 1, 3
 
@@ -452,7 +454,7 @@ def run_property(mod, tier, jobs=None, seed=0):
                         % (case, rp["key"], rp["concrete_failures"], json.dumps(rp["inputs"])[:600],
                            rp.get("tb") or ""))
 
-    os.makedirs(os.path.join(VERIF, "evidence", "replays"), exist_ok=True)
+    os.makedirs(os.path.join(EVDIR, "replays"), exist_ok=True)
     for kf in known_hit.values():
         print("KNOWN-FINDING: property=%s %s" % (prop, kf["what"]))
     vfiles = []
@@ -461,7 +463,7 @@ def run_property(mod, tier, jobs=None, seed=0):
         if rp["key"] in seen_keys:
             continue
         seen_keys.add(rp["key"])
-        path = os.path.join(VERIF, "evidence", "replays", "%s_%d.json" % (prop, len(vfiles)))
+        path = os.path.join(EVDIR, "replays", "%s_%d.json" % (prop, len(vfiles)))
         json.dump({"property": prop, "tier": tier, "case": case, "key": rp["key"], "inputs": rp["inputs"]},
                   open(path, "w"), indent=1)
         vfiles.append(path)
@@ -518,7 +520,7 @@ def run_property(mod, tier, jobs=None, seed=0):
         "wall_s": round(time.time() - t0, 3),
         "violations": len(vfiles),
     }
-    json.dump(ev, open(os.path.join(VERIF, "evidence", "%s.json" % prop), "w"), indent=1, default=str)
+    json.dump(ev, open(os.path.join(EVDIR, "%s.json" % prop), "w"), indent=1, default=str)
     print("%s tier=%s cases=%d paths=%d obligations=%d discharged=%d queries=%d solver=%.1fs wall=%.1fs"
           % (prop, tier, len(cases), paths, ev["coverage"]["obligations"], ev["coverage"]["discharged"],
              ev["coverage"]["queries"], ev["coverage"]["solver_s"], ev["wall_s"]))
